@@ -78,6 +78,18 @@ def make(row, case):
     cell = mol.scaled_cell(row["number"], row["choice"], len(ops), len(mol.ZPRIME[zk]), case.get("cellvar", 0))
     orient = mol.orientations(case.get("seed", 0))[case["orient"]]
     asym = mol.build(row, cell, case["centre"], orient, zk)
+    if case.get("listing"):
+        # the order in which a file lists the atoms of the asymmetric unit is not part of the structure: molecules listed atom by atom in
+        # turn (interleaved), heavy atoms of all molecules first and hydrogens last, or the whole list reversed
+        n = len(asym["symbols"])
+        mi = asym["molidx"]
+        rank = [sum(1 for j in range(i) if mi[j] == mi[i]) for i in range(n)]
+        order = {"interleaved": sorted(range(n), key=lambda i: (rank[i], mi[i])),
+                 "heavy-first": sorted(range(n), key=lambda i: (asym["symbols"][i] == "H", i)),
+                 "reversed": list(range(n))[::-1]}[case["listing"]]
+        inv = {old_: new_ for new_, old_ in enumerate(order)}
+        asym = dict(asym, symbols=[asym["symbols"][i] for i in order], frac=asym["frac"][order], molidx=[mi[i] for i in order],
+                    bonds=[(inv[a], inv[b]) for a, b in asym["bonds"]])
     imgs = mol.images(ops, asym)
     return ops, cell, asym, imgs
 
@@ -237,6 +249,11 @@ def plan(row, tier, seed, full):
                 if full and (ci + o) % 3 and zk not in ("1", "2diff", "1ooc"):
                     continue  # deviation bound: other Z' kinds on a third of the grid
                 cases.append({"number": row["number"], "choice": row["choice"], "zkind": zk, "centre": list(ce), "orient": o, "seed": seed})
+    # listing axis: the atoms of a Z' = 2 asymmetric unit interleaved / heavy atoms first / reversed
+    for zk in (("2diff", "2h2_h2o") if not full else [k for k in mol.ZPRIME if len(mol.ZPRIME[k]) > 1]):
+        for ce in centres[:2] if not full else centres[::31]:
+            for listing in ("interleaved", "heavy-first", "reversed"):
+                cases.append({"number": row["number"], "choice": row["choice"], "zkind": zk, "centre": list(ce), "orient": orients[0], "seed": seed, "listing": listing})
     # cell axis: the long/oblique and (triclinic, monoclinic) the strongly oblique compatible cell; molecules placed on a finer
     # grid of centres right at the cell faces, in all three orientations (bonds crossing a face at many angles)
     face = (0.004, 0.031, 0.969, 0.996, 0.47)
@@ -468,7 +485,7 @@ def run(ctx):
                 "skipped and counted; distinct = (setting, Z' kind, centre, orientation) cases that passed the precondition"
                 % (list(mol.CENTRES), len(jobs)))
     ctx.bounds = {"settings": len(jobs), "full_grid_settings": sum(1 for j in jobs if j[1]), "centres": list(mol.CENTRES),
-                  "zprime_kinds": list(mol.ZPRIME), "contact_margin_A": mol.MARGIN,
+                  "zprime_kinds": list(mol.ZPRIME), "listings": "Z' = 2 asymmetric units also listed interleaved / heavy atoms first / reversed", "contact_margin_A": mol.MARGIN,
                   "override_histories": "all 8 orders of {default, covalent_radii override} of length 3 in 4 settings",
                   "bond_tolerance_cases": "stretched / ordinary water x bond_tolerance {0.7, default, -0.2} x 2 placements in the same 4 settings, both entry points"}
     ctx.assumptions = ["covalent radii / masses are read from the library's element table as data; bonding rule d < cov_a+cov_b+0.4 as documented",
